@@ -29,7 +29,7 @@ def valid_tree(kind, tree, nref):
     t = kind.tag
     if t == "obj":
         return z3.And(tree >= 0, tree < nref)
-    if t in ("int", "bool", "real", "str", "any"):
+    if t in ("int", "bool", "real", "str", "any", "none"):
         return TRUE
     if t == "opt":
         inner = valid_tree(kind.args[0], tree[1], nref)
